@@ -132,6 +132,14 @@ def run(tier, seed, out):
     kit.log(f"C06: TLC generated {len(cases)} trees ({gen.wall:.1f}s)")
     recs = kit.drive("harness.c06", "drive_case", cases, None, chunk=500)
     out.evaluations += 3 * len(recs)
+
+    def corrupt(r):      # the second printed form differs from the first in one character
+        if r["p"].get("r") == "ok" and r["s1"] == r["s2"] and r["e"]["t"] == "Sum":
+            r["s2"] = r["s2"] + " "
+            return r
+        return None
+    out.extra["corrupted_records_rejected"] = kit.corruption_control(
+        "C06_Judge", "C06_Judge", recs, corrupt, wd, flagged=lambda v: "cl" in v and list(v["cl"]) != ["SKIP"])
     judge(out, recs, wd)
     for r in recs:
         out.note_case(r["e"], nontrivial=r["e"]["t"] not in ("Var", "Const"))
